@@ -7,7 +7,7 @@ use crate::json::J;
 use crate::lib_build::*;
 use crate::refmodel::*;
 use crate::rng::Rng;
-use neurons::network::{Layer, Network};
+use neurons::network::Layer;
 use neurons::tensor::Tensor;
 
 pub struct C02;
